@@ -471,3 +471,24 @@ def optvar_panel(tier):
 
 
 PANELS["optvar"] = optvar_panel
+
+
+# --------------------------------------------------------------------------
+def script_panel(tier):
+    """TLC-generated behaviours of the design spec (specs/BadsRunSim.tla) replayed into the real optimiser:
+    each simulated behaviour's sequence of value relations scripts the target of one real run, whose options
+    realise the constants of the simulated configuration"""
+    from . import simscripts
+    sd = _seed()
+    out = []
+    for j, (vi, c, script, summ) in enumerate(simscripts.generate(sd, 6 if tier == "quick" else 60)):
+        D = c["D"]
+        x0 = [1.0, -1.5, 0.5][:D]
+        out.append(_sc(f"sc{j}", D, S.box_geom(D, x0=x0), {"family": "script", "script": script},
+                       options=simscripts.options_for(c), seed=100 + j,
+                       tags=["script", f"variant{vi}"]))
+        out[-1]["sim"] = summ
+    return out
+
+
+PANELS["script"] = script_panel
